@@ -1,10 +1,11 @@
 #!/bin/bash
-# usage: tools/confirm_seed.sh <ID>   — confirm a seeded change in a scratch worktree of /repo:
+# usage: [MUT=/tmp/mut2] tools/confirm_seed.sh <ID>   — confirm a seeded change in a scratch worktree of /repo:
 #   builds, existing tests pass WITH the change, the demonstration fails WITH and passes WITHOUT it.
 set -u
 id=$1
-src=/tmp/mut/$id.out
+src=${MUT:-/tmp/mut}/$id.out
 wt=/tmp/confirm/$id
+mkdir -p /tmp/confirm
 export GOFLAGS=-mod=mod GOPROXY=off GOSUMDB=off GOTOOLCHAIN=local
 rm -rf $wt; git -C /repo worktree prune; git -C /repo worktree add --detach $wt HEAD -q || exit 2
 cleanup() { git -C /repo worktree remove --force $wt 2>/dev/null; }
